@@ -2,11 +2,13 @@
    The models treat the copy of one file as independent of the copy of every other file of the same run (one
    CopyHandle, one operation, one answer per system call).  That is sound only if nothing is carried from one file to
    the next through a `static`, a thread-local or the process umask.  On the current tree the only such item is the
-   compiled backup-name pattern (BAK_REGEX, a write-once cache of a constant). *)
+   compiled backup-name pattern (BAK_REGEX, a write-once cache of a constant) and BACKUP_STEP, a mutex holding NO data
+   (`Mutex<()>`): it serialises the backup-and-create step of concurrent workers (repair of the C06 defect found in round
+   4) and carries nothing from one file to the next. *)
 From XcpModel Require Import Base Extracted.
 From Coq Require Import String.
 Local Open Scope string_scope.
 
 Theorem x_process_wide_state_ok :
-  x_static_items = ["libxcp/src/backup.rs::BAK_REGEX"] /\ x_thread_locals = [] /\ x_umask_calls = 0%N.
+  x_static_items = ["libxcp/src/backup.rs::BAK_REGEX"; "libxcp/src/operations.rs::BACKUP_STEP"] /\ x_thread_locals = [] /\ x_umask_calls = 0%N.
 Proof. repeat split; reflexivity. Qed.
